@@ -1,10 +1,149 @@
 import Driver.Util
-open Lean Replicat
+open Lean Replicat Replicat.RateLimit
 namespace Driver
 
-/-- requests `rate.*` (see DESIGN.md Appendix A) -/
+/-! requests `rate.*` (see DESIGN.md Appendix A).  Rationals cross the tie as `[numerator, denominator]`
+(normalised, denominator > 0) so that nothing is rounded. -/
+
+def jint (n : Int) : Json := Json.num (JsonNumber.fromInt n)
+
+def jrat (q : Rat) : Json := Json.arr #[jint q.num, jnat q.den]
+
+def ratOf (v : Json) : Except String Rat := do
+  match v with
+  | .arr a =>
+    if a.size ≠ 2 then throw "rational: expected [num, den]"
+    let n ← a[0]!.getInt?
+    let d ← a[1]!.getNat?
+    if d = 0 then throw "rational: zero denominator"
+    pure (mkRat n d)
+  | _ => do
+    let n ← v.getInt?
+    pure (n : Rat)
+
+def getRat (j : Json) (k : String) : Except String Rat := do
+  ratOf (← j.getObjVal? k)
+
+def getRatD (j : Json) (k : String) (dflt : Rat) : Except String Rat :=
+  match j.getObjVal? k with
+  | .ok v => ratOf v
+  | .error _ => pure dflt
+
+def evOf (j : Json) : Except String Ev := do
+  let s ← getNat j "s"
+  match j.getObjVal? "idle" with
+  | .ok v => pure (.idle s (← ratOf v))
+  | .error _ =>
+    let b ← getNat j "b"
+    pure (.io s b (← getRatD j "lat" 0) (← getRatD j "ov" 0))
+
+def dirOf (s : String) : Except String Dir :=
+  if s = "r" then pure .read else if s = "w" then pure .write else throw s!"bad dir {s}"
+
+def dirStr : Dir → String
+  | .read => "r"
+  | .write => "w"
+
+def ev2Of (j : Json) : Except String Ev2 := do
+  let s ← getNat j "s"
+  match j.getObjVal? "idle" with
+  | .ok v => pure (.idle s (← ratOf v))
+  | .error _ =>
+    let b ← getNat j "b"
+    let d ← dirOf (← getStr j "dir")
+    pure (.io d s b (← getRatD j "lat" 0) (← getRatD j "ov" 0))
+
+def obsFields (o : Obs) : List (String × Json) :=
+  [("s", jnat o.stream), ("b", jnat o.bytes), ("lat", jrat o.lat), ("tPre", jrat o.tPre), ("tAcq", jrat o.tAcq),
+   ("tRel", jrat o.tRel), ("slept", jrat o.slept), ("debt", jrat o.debt), ("forgiven", jrat o.forgiven)]
+
+def obsJson (o : Obs) : Json := Json.mkObj (obsFields o)
+def obs2Json (p : Dir × Obs) : Json := Json.mkObj (("dir", Json.str (dirStr p.1)) :: obsFields p.2)
+
+def evJson : Ev → Json
+  | .io s b lat ov => Json.mkObj [("s", jnat s), ("b", jnat b), ("lat", jrat lat), ("ov", jrat ov)]
+  | .idle s dt => Json.mkObj [("s", jnat s), ("idle", jrat dt)]
+
+def fopOf (j : Json) : Except String (FOp × Rat × Rat) := do
+  let op ← getStr j "op"
+  let lat ← getRatD j "lat" 0
+  let ov ← getRatD j "ov" 0
+  let optNat (k : String) : Except String (Option Nat) :=
+    match j.getObjVal? k with
+    | .ok Json.null => pure none
+    | .ok v => do pure (some (← v.getNat?))
+    | .error _ => pure none
+  match op with
+  | "read" => pure (.read (← optNat "size"), lat, ov)
+  | "write" => pure (.write (← getBytes j "data"), lat, ov)
+  | "seek" => pure (.seek (← getInt j "off") (← getNat j "whence"), lat, ov)
+  | "tell" => pure (.tell, lat, ov)
+  | "truncate" => pure (.truncate (← optNat "size"), lat, ov)
+  | _ => throw s!"bad file op {op}"
+
+def fresJson : FRes → Json
+  | .data b => Json.mkObj [("data", Json.str (hex b))]
+  | .num n => Json.mkObj [("num", jnat n)]
+  | .err k => Json.mkObj [("err", Json.str k)]
+
 def handleRateLimit (op : String) (j : Json) : Except String Json := do
   match op with
+  | "rate.run" =>
+    let L ← getRat j "L"
+    let t0 ← getRatD j "t0" 0
+    let evs ← (← getArr j "events").toList.mapM evOf
+    match runChecked L (St.init t0) evs with
+    | .error .zeroDivision => pure (Json.mkObj [("raises", Json.str "ZeroDivisionError")])
+    | .ok (s, obs) =>
+      pure (Json.mkObj [("obs", Json.arr (obs.map obsJson).toArray), ("debt", jrat s.debt), ("lockFree", jrat s.lockFree)])
+  | "rate.run2" =>
+    let Lr ← getRat j "Lr"
+    let Lw ← getRat j "Lw"
+    let t0 ← getRatD j "t0" 0
+    let evs ← (← getArr j "events").toList.mapM ev2Of
+    let bad := evs.any (fun e => match e with
+      | .io .read .. => Lr == 0
+      | .io .write .. => Lw == 0
+      | .idle .. => false)
+    if bad then pure (Json.mkObj [("raises", Json.str "ZeroDivisionError")])
+    else
+      let (s, obs) := run2 Lr Lw (St2.init t0) evs
+      pure (Json.mkObj [("obs", Json.arr (obs.map obs2Json).toArray), ("rdebt", jrat s.rd.debt), ("wdebt", jrat s.wr.debt)])
+  | "rate.wrap" =>
+    let Lr ← getRat j "Lr"
+    let Lw ← getRat j "Lw"
+    let t0 ← getRatD j "t0" 0
+    let i ← getNat j "s"
+    let data ← getBytes j "data"
+    let pos ← getNat j "pos"
+    let ops ← (← getArr j "ops").toList.mapM fopOf
+    let (f, res, s, obs) := wrapRun MemFile.apply Lr Lw i ⟨data, pos⟩ (St2.init t0) ops
+    pure (Json.mkObj [("results", Json.arr (res.map fresJson).toArray), ("data", Json.str (hex f.data)), ("pos", jnat f.pos),
+      ("obs", Json.arr (obs.map obs2Json).toArray), ("rdebt", jrat s.rd.debt), ("wdebt", jrat s.wr.debt)])
+  | "rate.burst" =>
+    let L ← getRat j "L"
+    let eps ← getRatD j "eps" 0
+    let dmax ← getNat j "dmax"
+    pure (Json.mkObj [("post", jrat (burst L eps dmax)), ("pre", jrat (burstPre L eps dmax)),
+      ("general", jrat (L * (Gen.pauseThreshold + eps))), ("threshold", jrat Gen.pauseThreshold), ("limit", jrat Gen.pauseLimit)])
+  | "rate.chunk" =>
+    let limit ← getNat j "limit"
+    let conc ← getNat j "concurrent"
+    pure (Json.mkObj [("chunk", jnat (chunkSize limit conc)), ("divisor", jnat Gen.rateDivisor)])
+  | "rate.d16" =>
+    -- the witness of `multi_stream_counterexample`: N threads, K rounds, d bytes, latency d / L
+    let L ← getRat j "L"
+    let t0 ← getRatD j "t0" 0
+    let N ← getNat j "N"
+    let d ← getNat j "d"
+    let K ← getNat j "K"
+    if L = 0 then throw "L = 0"
+    let evs := rounds N d ((d : Rat) / L) K
+    let (s, obs) := run L (St.init t0) evs
+    let b := t0 + K * ((d : Rat) / L)
+    pure (Json.mkObj [("events", Json.arr (evs.map evJson).toArray), ("obs", Json.arr (obs.map obsJson).toArray),
+      ("debt", jrat s.debt), ("window", Json.arr #[jrat t0, jrat b]),
+      ("bytes_in_window", jrat (winBytes (·.tRel) t0 b obs)), ("allowed", jrat (L * (b - t0) + burst L 0 d))])
   | _ => throw s!"unknown op {op}"
 
 end Driver
